@@ -10,30 +10,30 @@ def e1(ref, text, note=E1NOTE, tech="bounded-exhaustive enumeration of inputs x 
     return ("model_checking", tech, "E1", ref, text, note)
 CHECKS = {
  "C01": e1("DESIGN.md §4 C01", "Every fragment sequence (length<=3 over the ~100-fragment alphabet F, <=4 over its 29-fragment core, <=3 over core + a 70-fragment exotic-syntax alphabet) and every byte string (<=5 over 22 bytes) is executed against 19 named policies and every <=2-subset of a 17-call builder alphabet (~48M executions); each output is re-tokenised and re-parsed in 8 flow contexts and every tag / comment / doctype found must be allowlisted. Exhaustive within those bounds; thorough deepens them (554M executions)."),
- "C02": e1("DESIGN.md §4 C02", "Every attribute list (<=2 on all of ~820 generated policies crossing rule scope x value pattern x overlap x AllowNoAttrs (call- and builder-level) x data attributes, one deeper on a fifth of them) over a 28-attribute alphabet on six element classes, start and self-closing; every surviving attribute must be justified by a rule of the spec view, a well-formed data-* name, governed style or a forced attribute; bare tags must be bare-allowed."),
- "C03": e1("DESIGN.md §4 C03", "Every URL string (<=3 fragments over a 46-fragment URL alphabet, <=4 bytes over 13, data: URIs <=4 over 24 fragments) in each of the 17 element/attribute positions, alone and as a duplicated attribute, x scheme allowlist / relative / custom check / scheme regexp / rewriter / globally-admitted-attribute variants; every surviving value is classified by a WHATWG-style scheme extractor that does not use net/url."),
+ "C02": e1("DESIGN.md §4 C02", "Every attribute list (<=2 on all of ~820 generated policies crossing rule scope x value pattern x overlap x AllowNoAttrs (call- and builder-level) x data attributes, one deeper on a fifth of them) over a 30-attribute alphabet (incl. values that match the policies' element patterns) on six element classes, start and self-closing; every surviving attribute must be justified by a rule of the spec view, a well-formed data-* name, governed style or a forced attribute; bare tags must be bare-allowed."),
+ "C03": e1("DESIGN.md §4 C03", "Every URL string (<=3 fragments over a 46-fragment URL alphabet, <=4 bytes over 13, data: URIs <=4 over 24 fragments) in each of the 17 element/attribute positions, alone and as a duplicated attribute, x scheme allowlist / relative / custom check / scheme regexp / rewriter / globally-admitted-attribute variants and the boundary shapes of the scheme tables (URL checking on with no scheme allowed, only a pattern, only a custom check); every surviving value is classified by a WHATWG-style scheme extractor that does not use net/url."),
  "C04": e1("DESIGN.md §4 C04", "Hostile sweep (206 elements x 249 attributes x 7 value classes, XSS alphabet sequences <=3) against StrictPolicy and UGCPolicy judged on the DOM in 8 containers against the harness's transcription of the documented UGC vocabulary plus an independent blacklist; converse: ~61k generated conforming documents must come back unchanged apart from rel=nofollow."),
  "C05": e1("DESIGN.md §4 C05", "Every sequence <=3 over 47 script/style forms with uniquely numbered text markers (<=4 over a 20-fragment core) and byte strings glued to the literal names, against 10 policies that try to allow script/style without AllowUnsafe; no script/style tag or element in the output and no marker the tree builder places inside script/style of the input survives. Two known findings (tokenizer / tree-builder differentials inside svg|math and inside select, output inert) are listed in known_findings.jsonl."),
  "C06": e1("DESIGN.md §4 C06", "Every sequence <=3 over a 61-fragment text-heavy alphabet and byte strings <=5, against every policy of the family in the property's class with and without space insertion; exact two-pointer alignment of re-tokenised input and output (characters unchanged, tags kept or replaced by nothing / one space, no new tags)."),
- "C07": e1("DESIGN.md §4 C07", "For 120 generated overlapping-rule policies (every unordered pair of rule shapes over scope x pattern) and ~20 named ones (bare-after-rules orders, several bare patterns, space insertion, widened custom schemes), every document their own vocabulary generates (elements x <=2 attributes x witness values x nesting depth 2, ~4M documents) must be returned byte for byte modulo forced attributes."),
- "C10": e1("DESIGN.md §4 C10", "Every sequence of <=3 declarations over a 38-declaration alphabet (incl. an escape alphabet) on four element classes against 42 style rule sets (scope x matcher kind x style attribute admitted or not); output style re-split the way a browser does, each declaration justified on lower(css-decode(value)); exact expected output for escape-free inputs."),
+ "C07": e1("DESIGN.md §4 C07", "For 120 generated overlapping-rule policies (every unordered pair of rule shapes over scope x pattern) and ~20 named ones (bare-after-rules orders, several bare patterns, space insertion, widened custom schemes), every document their own vocabulary generates (elements x <=2 attributes x witness values x nesting depth 2, style attributes of one or two conforming declarations, ~4M documents) and documents with one token of 1 KiB ... 4 MiB must be returned byte for byte modulo forced attributes."),
+ "C10": e1("DESIGN.md §4 C10", "Every sequence of <=3 declarations over a 38-declaration alphabet (incl. an escape alphabet) on four element classes against 43 style rule sets (scope x matcher kind x style attribute admitted or not, mixed-case enum / property spellings), the element class varying fastest; output style re-split the way a browser does, each declaration justified on lower(css-decode(value)); exact expected output for escape-free inputs."),
  "C11": e1("DESIGN.md §4 C11", "a/area/link x every attribute list <=3 over 22 href/rel/target/other attributes x all 32 link-option combinations x rel admitted (no pattern / SpaceSeparatedTokens / not) x target admitted or not; requirements judged on the first rel/target as a browser reads duplicates, tokens compared ASCII case-insensitively."),
- "C12": e1("DESIGN.md §4 C12", "Five media elements x every attribute list <=4 over crossorigin forms, iframe x every list <=3 over sandbox token sequences, x crossorigin/sandbox admitted or not x every sandbox subset of size <=2 plus the full set (thorough: all 16384 subsets)."),
+ "C12": e1("DESIGN.md §4 C12", "Five media elements x every attribute list <=4 over crossorigin forms, iframe x every list <=3 over sandbox token sequences, x crossorigin/sandbox admitted per element / through a pattern / globally / not at all x the sandbox list set once or twice x every sandbox subset of size <=2 plus the full set (thorough: all 16384 subsets)."),
  "C18": e1("DESIGN.md §4 C18", "For each of the 213 default handlers: every pool token it accepts and every accepted 2-3 token combination, with each of 14 hostile fragments inserted at every byte position, glued at both ends and substituted; the handler must reject all (~10M handler calls), the unknown-property handler rejects the pool, and Sanitize end to end removes a per-position subset.",
           "Trusted: the harness's hostile-construct scanner and CSS escape decoder. Vocabulary pool is extracted from css/handlers.go's string literals at check time plus a fixed list of numeric/functional forms."),
- "C19": e1("DESIGN.md §4 C19", "Per exported matcher: all strings up to length 4-6 over its own alphabet plus 11 HTML-significant characters, and all single and double edits of every documented example (82M strings); a match must be accepted by a hand-written recogniser of the documented form, and every documented example must match.",
+ "C19": e1("DESIGN.md §4 C19", "Per exported matcher: all strings up to length 4-6 over its own alphabet plus 17 HTML-significant characters, all strings <=3 over that alphabet widened by 19 regular-expression metacharacters, and all single and double edits of every documented example (63M strings in quick); a match must be accepted by a hand-written recogniser of the documented form, and every documented example must match.",
           "Trusted: the recognisers in internal/checks/c19.go."),
  "C08": ("model_checking", "explicit-state breadth-first search over states of the real token loop (loop locals read through a build overlay + input element stack), transitions = tokens of a well-nested grammar, per-transition oracle", "E2", "DESIGN.md §4 C08",
-         "Reachability closure of the real sanitiser's token-loop state under 19 policies for every well-nested document over a grammar of 18 open/close forms and 20 leaves with nesting depth <=3 (thorough 4) and any length (0.9M states, 21M transitions in quick): text inside a disallowed skip-content element never appears, markup inside it produces no output, text outside appears once and unchanged.",
+         "Reachability closure of the real sanitiser's token-loop state under 17 policies for every well-nested document over a grammar of 18 open/close forms and 9-20 leaves with nesting depth <=3 (thorough 4) and any length (0.5M states, 8M transitions in quick): text inside a disallowed skip-content element never appears, markup inside it produces no output, text outside appears once and unchanged, and a complete skipped element leaves no trace (if the loop state differs from the state before it, every continuation <X>text</X> and every leaf must behave as without it).",
          "Trusted: the overlay instrumenter (harness/cmd/instrument) locating the token loop and dumping its locals; state equality (same locals + same open-element stack => same future) holds because the loop's future depends on nothing else except the immutable policy. If the loop cannot be located the check degrades to bounded enumeration and says exhaustive:false."),
  "C09": ("model_checking", "explicit-state breadth-first search over states of the real token loop (same search as C08), stack-balance monitor on the re-tokenised output in every state", "E2", "DESIGN.md §4 C09",
-         "Same state space as C08; in every reached state the re-tokenised output never closes an element that is not the innermost open one, never has more open elements than the input, and is fully closed whenever the input document is complete.",
+         "Same state space as C08; in every reached state the re-tokenised output never closes an element that is not the innermost open one, never has more open elements than the input, and is fully closed whenever the input document is complete. A two-call layer adds: after the same policy sanitised any fragment sequence of length <=3, six well-nested documents still come out balanced.",
          "As C08. Void elements per the HTML list; self-closing tokens are leaves."),
  "C13": ("model_checking", "stateless model checking under a cooperative scheduler with iterative preemption bounding + exhaustive map-iteration-order choices; separate free-running race-detector pass", "E3", "DESIGN.md §4 C13",
-         "All interleavings with <=2 preemptions of two goroutines sanitising on one shared policy (scheduling point before every statement of the package), all map-range orders within 2 deviations from sorted order, alone and combined with a preemption (0.5M executions in quick); every call must return the sequential result and sanitising must not change later behaviour (deep snapshot of the policy and of all package-level variables; on a difference the used policy is compared with a fresh one on probes; other policies must be unaffected by calls on this one). The data-race clause is decided by Go's race detector on a free-running build of the same bodies.",
+         "All interleavings with <=2 preemptions of two goroutines sanitising on one shared policy (scheduling point before every statement of the package), all map-range orders within 2 deviations from sorted order, alone and combined with a preemption (0.5M executions in quick); every call must return the sequential result and sanitising must not change later behaviour (deep snapshot of the policy and of all package-level variables; on a difference the used policy is compared with a fresh one on probes; other policies must be unaffected by calls on this one). Sequential histories: on 13 policies, for all ordered pairs (x, y) of 119 inputs, y after x on one fresh instance equals the result of the first and only call of a fresh process. The data-race clause is decided by Go's race detector on a free-running build of the same bodies.",
          "Trusted: the overlay (scheduling points, map-range rewriting, reflective snapshot); sequentially consistent interleaving at statement granularity; the race detector for unsynchronised accesses (outside the model-checking family, stated in DESIGN.md)."),
  "C14": ("model_checking", "bounded-exhaustive enumeration for absence of panics on all four entry points + step-bounded execution (overlay step counter, cubic budget) of size-parameterised input families", "E5", "DESIGN.md §4 C14",
-         "Every byte string <=4 over 22 bytes and every fragment sequence <=2 through all four entry points on an everything-on policy; every default CSS handler x its own vocabulary x separators x terminators x sizes up to 48 components and 35 HTML families up to n=256 executed under a budget of 16*(len+16)^3 instrumented steps. No wall-clock oracle.",
+         "Every byte string <=4 over 22 bytes, every fragment sequence <=2 and every sequence of 3-4 tokens over a 23-token token-loop alphabet through all four entry points on an everything-on policy and UGC; every default CSS handler x its own vocabulary x separators x terminators x sizes up to 48 components and 35 HTML families up to n=256 executed under a budget of 16*(len+16)^3 instrumented steps. No wall-clock oracle.",
          "Trusted: step counting by the overlay (statements of bluemonday, function entries and loop iterations of css); work inside regexp / douceur / x/net/html is not counted. Polynomial bound established for the listed sizes, not asymptotically."),
  "C15": ("fault_enumeration", "exhaustive enumeration of reader chunkings (all subsets of split points for short inputs), zero-length reads, EOF-with-data, writer kinds; differential oracle across the four entry points and the built cmd tools", "E4", "DESIGN.md §4 C15",
          "58M environment runs in quick: every input of <=2 fragments (and a core of 3) under every chunking (2^(n-1) for n<=8, <=2 split points beyond) x zero-length reads x EOF delivered with data x both writer kinds must give exactly Sanitize's bytes; blank inputs and the caller's buffer are checked; both cmd binaries are built from /repo and compared with the library on 1.6k stdin documents.",
@@ -44,7 +44,7 @@ CHECKS = {
  "C17": ("model_checking", "explicit-state search over builder-call histories with an abstract rule-set state (reference model) and conformance of every history against the implementation by probe-output vectors", "E6", "DESIGN.md §4 C17",
          "Every history of <=3 calls (thorough <=4 within budget) over a 76-call alphabet (every upper-case spelling has its lower-case twin; 439k histories, 14.7k abstract states), every history of <=2 calls that uses one of 17 helper / rarely used calls, and every history of <=2 calls (<=3 over the option calls) started from a links-enabled non-initial state, is executed on a fresh real policy by exactly one shard; the parent groups the records of all shards by abstract state; all histories reaching one abstract state must agree byte for byte on 46 probe documents; an additive call never removes a kept tag or attribute. Instances: in a pristine process, after each call on a scratch instance a fresh and an earlier instance must be unaffected (3 bases), plus interleaved construction of two instances.",
          "Trusted: the reference model (internal/spec ViewOf + Canon); probe documents distinguish the behaviours of interest."),
- "C20": e1("DESIGN.md §4 C20", "Fragment sequences (<=3 over F, <=4 core, <=3 over core + exotic syntax), URL strings in three positions, link attribute lists <=3, against every policy of the family inside the property's class plus Strict and UGC (with the del/ins proviso): Sanitize(Sanitize(x)) == Sanitize(x). One known finding (rel/target order) is listed in known_findings.jsonl."),
+ "C20": e1("DESIGN.md §4 C20", "Fragment sequences (<=3 over F, <=4 core, <=3 over core + exotic syntax), URL strings in three positions (<=3 fragments, and <=3 tail fragments after five well-formed prefixes), link attribute lists <=3 (<=2 under every combination of the five link options x rel / target admission), against every policy of the family inside the property's class plus Strict and UGC (with the del/ins proviso): Sanitize(Sanitize(x)) == Sanitize(x). Two known findings (rel/target order, two mirror-image policy shapes) are listed in known_findings.jsonl."),
 }
 
 built = [i for i in ids if i in CHECKS and os.environ.get("ONLY", i) ]
